@@ -416,6 +416,60 @@ func (c *Ctx) aesCbcDecryptRules(r *Report, prefix string) {
 		okR, detail, nLoads := c.stripShape(fn, buf, 0)
 		r.Check(okR, rule, name+": strips last octet + 1", c.Pos(fn.Pos()), detail, detail)
 		r.Check(nLoads == 1, rule, name+": any pad content is accepted", c.Pos(fn.Pos()), "exactly one octet of the decrypted buffer is inspected (the pad length)", fmt.Sprintf("%d octets of the decrypted buffer are inspected", nLoads))
+		// every legal pad length is accepted: no failure exit of Decrypt is reachable for IV | n >= 1 blocks whose
+		// last decrypted octet p leaves p + 1 <= 16 n octets to strip (RFC 7296 3.14: the receiver accepts any pad
+		// length, not only the minimal one)
+		in = fn.Params[1]
+		spec := &domSpec{ExactLenParam: -1, LenDom: map[string][2]int64{in.Name(): {32, INF}}, NonNil: map[string]bool{fn.Params[0].Name(): true}, EnvErr: map[string]string{},
+			Rel: func(f *FA) []Fact {
+				var out []Fact
+				inLen := f.SliceLen(fn.Params[1])
+				for _, b := range f.Fn.Blocks {
+					for _, ins := range b.Instrs {
+						switch x := ins.(type) {
+						case *ssa.BinOp:
+							// (len(in) - 16k) % 16 == 0 on the domain
+							if x.Op != token.REM {
+								continue
+							}
+							k, isK := x.Y.(*ssa.Const)
+							if !isK || k.Value == nil {
+								continue
+							}
+							if kv, ok := constInt64(k.Value); !ok || kv != 16 {
+								continue
+							}
+							d := f.LFOf(x.X).add(inLen, -1)
+							if d.isConst() && d.C%16 == 0 {
+								l := f.LFOf(x)
+								out = append(out, Fact{L: l}, Fact{L: l.scale(-1)})
+							}
+						case *ssa.UnOp:
+							// the pad-length octet: buffer[len(buffer)-1] + 1 <= len(buffer)
+							base, idx, ok := isElemLoadAny(x)
+							if !ok {
+								continue
+							}
+							if _, isMk := base.(*ssa.MakeSlice); !isMk {
+								continue
+							}
+							if f.LFOf(idx).key() != f.SliceLen(base).add(konst(1), -1).key() {
+								continue
+							}
+							out = append(out, Fact{L: f.SliceLen(base).add(f.LFOf(x), -1).add(konst(1), -1)})
+							for _, ref := range *x.Referrers() {
+								if cv, ok := ref.(*ssa.Convert); ok {
+									out = append(out, Fact{L: f.SliceLen(base).add(f.LFOf(cv), -1).add(konst(1), -1)})
+								}
+							}
+						}
+					}
+				}
+				return out
+			}}
+		c.domainTotalRule(r, prefix+"decrypt-accepts-legal-padding",
+			"no failure exit of Decrypt is reachable for an input IV | n >= 1 whole blocks whose last decrypted octet p satisfies p + 1 <= 16 n: every legal pad length 0..255 is accepted, not only the minimal one (RFC 7296 3.14)",
+			1, map[*ssa.Function]*domSpec{fn: spec}, []*ssa.Function{fn})
 	}
 }
 
